@@ -12,9 +12,11 @@
   * orchestrator  `spawnBegin kinds` — `operator_blocked = await make_toggle("orchestration blocker")`
                   `spawn r`          — `[resource_indexed = await make_toggle(name=what)]`, watcher task created
                   `spawnEnd`         — `await drop_toggle(operator_blocked)`
-  * watcher r     `arrive r o …`     — first event of an object without a stream:
-                                       `if operator_indexed.is_on(): operator_indexed = None`,
-                                       `[await make_toggle(name=key)]`, worker spawned
+  * watcher r     `check r on`       — first event of an object without a stream, watcher still gating:
+                                       `if operator_indexed.is_on(): operator_indexed = None`
+                                       (`on` = what `is_on()` returned; the following
+                                       `await make_toggle` may suspend, so this is its own label)
+                  `arrive r o …`     — `[await make_toggle(name=key)]` done, worker spawned
                   `listed r`         — `Bookmark.LISTED`: `[await drop_toggle(resource_indexed)]`
   * worker (r,o)  `index`            — `await indexing.index_resource(...)` returned
                   `drop`             — `[await drop_toggle(resource_indexed)]`, enters `wait_for(True)`
@@ -59,6 +61,7 @@ structure GState (R O : Type) where
   objTog : List (R × O)           -- per-object toggles in the set
   listed : List R                 -- kinds whose LISTED has been consumed at least once
   detached : List R               -- watchers with `operator_indexed = None`
+  checked : List R                -- watchers that saw `is_on() == False` and are about to add a toggle
   workers : R × O → Option Worker
   -- history variables (for the property only; no guard reads them)
   listing : List (R × O)          -- objects of indexed kinds that arrived before the kind's LISTED
@@ -68,13 +71,14 @@ structure GState (R O : Type) where
 
 def GState.init {R O : Type} : GState R O :=
   { started := false, spawning := false, blocker := false, pending := [], spawned := [],
-    resTog := [], objTog := [], listed := [], detached := [], workers := fun _ => none,
+    resTog := [], objTog := [], listed := [], detached := [], checked := [], workers := fun _ => none,
     listing := [], indexedOnce := [], everOn := false, handled := false }
 
 inductive Label (R O : Type) where
   | spawnBegin (kinds : List (R × Bool))
   | spawn (r : R)
   | spawnEnd
+  | check (r : R) (on : Bool)                         -- `on` as observed
   | arrive (r : R) (o : O) (gated hasToggle : Bool)   -- flags as observed on the started worker
   | listed (r : R)
   | index (r : R) (o : O)
@@ -96,6 +100,12 @@ def GState.isOn (s : GState R O) : Bool := !s.blocker && s.resTog.isEmpty && s.o
 def setPc (s : GState R O) (ro : R × O) (w : Worker) (pc : Pc) : GState R O :=
   { s with workers := upd s.workers ro (some { w with pc := pc }) }
 
+/-- `streams[key]` is absent: no worker yet, or the previous one has finished (idle exit) -/
+def free (s : GState R O) (ro : R × O) : Bool :=
+  match s.workers ro with
+  | none => true
+  | some w => decide (w.pc = .idle)
+
 def step (bug : Bug) (s : GState R O) : Label R O → Option (GState R O)
   | .spawnBegin kinds =>
     if s.started then none
@@ -112,20 +122,28 @@ def step (bug : Bug) (s : GState R O) : Label R O → Option (GState R O)
   | .spawnEnd =>
     if s.spawning && s.pending.isEmpty then some { s with spawning := false, blocker := false }
     else none
-  | .arrive r o gated hasToggle =>
-    match aget r s.spawned, s.workers (r, o) with
-    | some ind, none =>
-      let det := decide (r ∈ s.detached) || s.isOn
-      let g := !det
-      let t := !det && ind
-      if gated = g ∧ hasToggle = t then
-        some { s with detached := if det then sadd r s.detached else s.detached,
-                      everOn := s.everOn || s.isOn,
-                      objTog := if t then sadd (r, o) s.objTog else s.objTog,
-                      workers := upd s.workers (r, o) (some ⟨.queued, g, t⟩),
-                      listing := if ind && !decide (r ∈ s.listed) then sadd (r, o) s.listing else s.listing }
+  | .check r on =>
+    match aget r s.spawned with
+    | some _ =>
+      if on = s.isOn ∧ r ∉ s.detached ∧ r ∉ s.checked then
+        if on then some { s with detached := sadd r s.detached, everOn := true }
+        else some { s with checked := sadd r s.checked }
       else none
-    | _, _ => none
+    | none => none
+  | .arrive r o gated hasToggle =>
+    match aget r s.spawned with
+    | some ind =>
+      if free s (r, o) then
+        let det := decide (r ∈ s.detached)
+        let t := !det && ind
+        if gated = (!det) ∧ hasToggle = t ∧ (det = true ∨ r ∈ s.checked) then
+          some { s with checked := sdel r s.checked,
+                        objTog := if t then sadd (r, o) s.objTog else s.objTog,
+                        workers := upd s.workers (r, o) (some ⟨.queued, !det, t⟩),
+                        listing := if ind && !decide (r ∈ s.listed) then sadd (r, o) s.listing else s.listing }
+        else none
+      else none
+    | none => none
   | .listed r =>
     match aget r s.spawned with
     | some ind =>
